@@ -20,7 +20,8 @@ MethodsC04 == { Mth("", "GET", "/x", h, FALSE, sec) : h \in BOOLEAN, sec \in Sec
 
 \* ---- C01: routes, prefixes, verbs, hidden/deprecated, two controllers, foreign files --------------------------------
 CfgsC01 == { Cfg("gin", v, FALSE, NoSec, <<"s1", "s2">>) : v \in {"3.0.0", "3.1.0"} }
-CtrlsC01 == { Ctl(pk, "f1", n, pre, n, <<>>) : pk \in {"p1", "p2"}, n \in {"AController", "BController"}, pre \in {"", "/a", "/a/", "/{t}", "/b"} }
+\* (tag "" = no @Tag; together with prefix "" the controller has no doc comment at all)
+CtrlsC01 == { Ctl(pk, f, n, pre, tg, <<>>) : pk \in {"p1", "p2"}, f \in {"f1", "f2"}, n \in {"AController", "BController"}, pre \in {"", "/a", "/a/", "/{t}", "/b"}, tg \in {"Tag", ""} }
 MethodsC01 == { Mth(f, v, r, h, d, <<>>) : f \in {"", "f2"}, v \in {"GET", "POST", "DELETE"}, r \in {"/", "/x", "x", "//x", "/x/", "/{id}", "/{id}/y"},
                                            h \in BOOLEAN, d \in BOOLEAN }
 
@@ -32,7 +33,7 @@ MethodsC15 == { Mth("", v, r, FALSE, FALSE, <<>>) : v \in {"GET", "POST"}, r \in
 \* ---- simulation: everything together ----------------------------------------------------------------------------------
 CfgsSim == { Cfg(en, v, e, d, <<"s1", "s2">>) : en \in {"gin", "echo", "mux", "chi", "fiber"}, v \in {"3.0.0", "3.1.0"}, e \in BOOLEAN, d \in {NoSec, S("s1", <<"d">>)} }
 CtrlsSim == { Ctl(pk, f, n, pre, tg, sec) : pk \in {"p1", "p2"}, f \in {"f1", "f2"}, n \in {"AController", "BController", "CController"},
-                                            pre \in {"", "/a", "/a/", "/{t}", "/b", "/c/d"}, tg \in {"A", "Tag B"}, sec \in SecShapes }
+                                            pre \in {"", "/a", "/a/", "/{t}", "/b", "/c/d"}, tg \in {"A", "Tag B", ""}, sec \in SecShapes }
 MethodsSim == { Mth(f, v, r, h, d, sec) : f \in {"", "f1", "f2"}, v \in {"GET", "POST", "PUT", "DELETE", "PATCH"},
                                           r \in {"/", "/x", "x", "//x", "/x/", "/{id}", "/{id}/y", "/x/{id}", "/y"}, h \in BOOLEAN, d \in BOOLEAN, sec \in SecShapes }
 \* ---- C06: parameter lists, pointer-ness, locations, aliases, validators, return shapes, error responses --------------------
